@@ -26,7 +26,8 @@ MARK = -99990
 
 
 def strip_tags(x):
-    return " ".join(p for p in x.split(" ") if not p.startswith("tags=") and not p.startswith("lits="))
+    # field by field (fields are tab separated): the last word of a field may be followed by a tab, not a space
+    return "\t".join(" ".join(p for p in part.split(" ") if not p.startswith("tags=") and not p.startswith("lits=")) for part in x.split("\t"))
 
 
 def big_ints(x):
